@@ -153,6 +153,15 @@ CLAIMS = {
              'extrapolate_next is min over k in 0..=n/2; cache discipline as in C13 for wcet::ExtrapolatingCurve with '
              '!Send/!Sync witnesses and extrapolate(n+1) before cost_of_jobs(n). Not decided: domination beyond the prefix.',
         ref='7/C14'),
+    'C15': dict(
+        technique='expression-tree / loop-summary comparison with the documented formula; loop-termination pattern; zero guard',
+        text='Narrow claim: arrival_probability is e^-m * m^k / k! with m = rate*delta exactly as documented (expression tree; '
+             'floating-point operations are not re-associated), number_arrivals accumulates that mass function from 0 until the '
+             'cumulative probability plus epsilon reaches 1 and is 0 at delta = 0; and the termination clause -- the loop has no '
+             'exit other than a floating-point comparison -- which is reported as a KNOWN FINDING (it does not return for means '
+             'of about 745 and more, and returns values below the quantile once k! and mean^k overflow). NOT decided: that the '
+             'returned value is the (1-epsilon) quantile, monotonicity in delta, any floating-point accuracy.',
+        ref='9 and 15'),
     'C16': dict(
         technique='canonical terms vs reviewed references; delegation-form rule; inventory of trait-method implementations',
         text='RBF = cost_of_jobs(number_arrivals(delta)), job_cost_iter takes number_arrivals(delta) items, '
@@ -174,8 +183,6 @@ CLAIMS = {
 
 NOT_YET = 'clauses designed in DESIGN.md section 7 but not yet implemented in this commit'
 NA = {
-    'C15': 'floating-point quantile: result, termination and monotonicity depend on rounding/overflow/underflow; '
-           'not decidable by static analysis of code shape (the unbounded loop is reported under C20)',
 }
 
 
